@@ -11,6 +11,7 @@ Notation used throughout the `RoundTrip*` files:
 -/
 import CassisModel.Spec.RoundTrip
 import CassisModel.Spec.XmiDoc
+import CassisModel.Proofs.ResName
 
 namespace Cassis.Xmi
 open Cassis.TS Cassis.Traverse Cassis.Lex
@@ -45,10 +46,35 @@ def flatAttrs (cass : List Cas) (H : Heap) (isAnn : Bool) (o : Obj) : List Featu
      | some s => [(f.name, s)]
      | none => []) ++ flatAttrs cass H isAnn o fs
 
+/-- the attributes as written: under the name the writer uses (`xmlName`: a reserved feature `self_` / `type_` is
+    written as `self` / `type`).  `flatAttrs` above is the same list under the stored names — what the reader makes of
+    it by renaming (`flatAttrsW_ren`). -/
+def flatAttrsW (cass : List Cas) (H : Heap) (isAnn : Bool) (o : Obj) : List Feature → List (String × String)
+  | [] => []
+  | f :: fs =>
+    (match flatTok cass H isAnn o f.name ((alistGet? o.slots f.name).getD .none) with
+     | some s => [(xmlName f, s)]
+     | none => []) ++ flatAttrsW cass H isAnn o fs
+
+theorem flatAttrsW_ren (cass : List Cas) (H : Heap) (isAnn : Bool) (o : Obj) :
+    ∀ (fs : List Feature), (∀ f ∈ fs, ResOk f ∧ f.name ≠ "self" ∧ f.name ≠ "type") →
+      (flatAttrsW cass H isAnn o fs).map (fun p => (renRes p.1, p.2)) = flatAttrs cass H isAnn o fs
+  | [], _ => rfl
+  | f :: fs, h => by
+    obtain ⟨h1, h2, h3⟩ := h f List.mem_cons_self
+    unfold flatAttrsW flatAttrs
+    rw [List.map_append, flatAttrsW_ren cass H isAnn o fs (fun g hg => h g (List.mem_cons_of_mem _ hg))]
+    congr 1
+    cases flatTok cass H isAnn o f.name ((alistGet? o.slots f.name).getD .none) with
+    | none => rfl
+    | some s =>
+      show [(renRes (xmlName f), s)] = [(f.name, s)]
+      rw [renRes_xmlName f h1 h2 h3]
+
 /-- the element written for the flat structure `o` of type `t` carrying the id `x` -/
 def flatElem (ts : TypeSystem) (cass : List Cas) (H : Heap) (x : Int) (o : Obj) (t : TypeRec) : XElem :=
   { ty := o.ty,
-    attrs := (ID, showInt x) :: flatAttrs cass H (isInstanceOf ts o.ty ANNOTATION) o (allFeatures t),
+    attrs := (ID, showInt x) :: flatAttrsW cass H (isInstanceOf ts o.ty ANNOTATION) o (allFeatures t),
     kids := [] }
 
 /-- slot value after `pass1`: the attribute string (the `sofa` attribute as an integer) -/
